@@ -32,7 +32,16 @@ fn probes(site: &TSite, orig: &V, dense: bool) -> Vec<(String, V)> {
         Ty::Bytes(Some(c)) => lens(*c).into_iter().for_each(|n| out.push((format!("bytes({})", n), V::B(fill_bytes(n, 9))))),
         Ty::BytesExact(c) => lens(*c).into_iter().for_each(|n| out.push((format!("bytes({})", n), V::B(fill_bytes(n, 9))))),
         Ty::Bytes(None) => [0usize, 1, 255, 256, 1024, 4000].iter().for_each(|n| out.push((format!("bytes({})", n), V::B(fill_bytes(*n, 9))))),
-        Ty::Text(Some(c)) | Ty::TextSkip(c) | Ty::TextTrunc(c) => lens(*c).into_iter().for_each(|n| out.push((format!("text({})", n), V::t(&fill_text(n, 9))))),
+        Ty::Text(Some(c)) | Ty::TextSkip(c) | Ty::TextTrunc(c) => {
+            lens(*c).into_iter().for_each(|n| out.push((format!("text({})", n), V::t(&fill_text(n, 9)))));
+            // limits are byte limits: multi-byte text just below / at / above them
+            for width in [2usize, 3, 4] {
+                for n in c.saturating_sub(4)..=c + 6 {
+                    out.push((format!("wide-text({} bytes, width {})", n, width), V::t(&crate::refmodel::fill_wide(n, width))));
+                }
+                out.push((format!("wide-text({} bytes, width {})", 2 * c + 2, width), V::t(&crate::refmodel::fill_wide(2 * c + 2, width))));
+            }
+        }
         Ty::Text(None) | Ty::Icon => [0usize, 1, 255, 256, 1024, 4000].iter().for_each(|n| out.push((format!("text({})", n), V::t(&fill_text(*n, 9))))),
         Ty::List(_, Some(c)) => {
             let elem = orig.as_arr().and_then(|a| a.first().cloned()).unwrap_or_else(|| descriptor(0, 16));
@@ -45,6 +54,25 @@ fn probes(site: &TSite, orig: &V, dense: bool) -> Vec<(String, V)> {
         Ty::Params => {
             for n in [0usize, 1, 2, 3, 12, 13, 64] {
                 out.push((format!("params({})", n), V::A((0..n).map(|i| param(if i % 2 == 0 { -7 } else { -8 }, PUBLIC_KEY)).collect())));
+            }
+            // an entry at / beyond its own limits placed after 0..=3 recognised entries and followed by 0..=1 more
+            let bad: Vec<(&str, V)> = vec![
+                ("type of 33 bytes", param(-7, &fill_text(33, 4))),
+                ("type of 32 bytes (fits)", param(-7, &fill_text(32, 4))),
+                ("alg 2^31", V::M(vec![(V::t("alg"), V::U(1 << 31)), (V::t("type"), V::t(PUBLIC_KEY))])),
+                ("alg -2^31-1", V::M(vec![(V::t("alg"), V::N(1 << 31)), (V::t("type"), V::t(PUBLIC_KEY))])),
+                ("alg -2^31 (fits)", param(i32::MIN as i64, PUBLIC_KEY)),
+                ("alg 2^32-7", V::M(vec![(V::t("alg"), V::U((1 << 32) - 7)), (V::t("type"), V::t(PUBLIC_KEY))])),
+            ];
+            for (what, b) in &bad {
+                for before in 0..=3usize {
+                    for after in 0..=1usize {
+                        let mut items: Vec<V> = (0..before).map(|i| param(if i % 2 == 0 { -7 } else { -8 }, PUBLIC_KEY)).collect();
+                        items.push(b.clone());
+                        items.extend((0..after).map(|_| param(-8, PUBLIC_KEY)));
+                        out.push((format!("params: {} after {} recognised entries, {} following", what, before, after), V::A(items)));
+                    }
+                }
             }
         }
         Ty::Uint(max) => int_values(*max).into_iter().for_each(|x| out.push((format!("uint({})", x), V::U(x)))),
